@@ -149,6 +149,7 @@ type Machine struct {
 	harnessName    string
 	cur            *frame
 	inScope        bool
+	havocN         int
 	NoSlice        bool
 	SummarizeGFMul bool
 	Redirect       map[*ssa.Function]*ssa.Function // calls to key are executed as calls to value (harness stubs)
